@@ -266,6 +266,23 @@ def build_cases(tier, rng):
                 if einsum_ok and free and rng.random() < (0.25 if lean else 0.6 if tier == "thorough" else 0.45):
                     for p in out_perms(free, rng, tier if tier == "quick" or rng.random() < 0.4 else "quick"):
                         add(cxx17, pair_case(t, F_EXPLICIT, a, b, ext, n, cls, out=p))
+    # hand-specialised kernels for EQUAL extents (dyadic 1x1..4x4, 2x2/3x3/4x4/8x8 matrix kernels reached through einsum):
+    # distinct extents per free label (above) never reach them; element-wise comparison on independent random operands still
+    # exposes a transposed or lane-swapped result although the extents are equal
+    for t in ("f", "d"):
+        for n_ in (1, 2, 3, 4, 8):
+            a, b = (0,), (1,)
+            ext = {0: n_, 1: n_}
+            if n_ > 1:
+                add(common, pair_case(t, F_OUTER, a, b, ext, n_ * n_, "outer-eq"))
+            add(common, pair_case(t, F_EINSUM, a, b, ext, n_ * n_, "outer-eq"))
+            add(common, pair_case(t, F_CONTRACTION, a, b, ext, n_ * n_, "outer-eq"))
+            add(cxx17, pair_case(t, F_EXPLICIT, a, b, ext, n_ * n_, "outer-eq", out=(1, 0)))
+            # ij,jk with all extents equal (square specialised matmul kernels) and ij,j / i,ij
+            e3 = {0: n_, 1: n_, 2: n_}
+            add(common, pair_case(t, F_EINSUM, (0, 1), (1, 2), e3, n_ ** 3, "matmat-eq"))
+            add(common, pair_case(t, F_EINSUM, (0, 1), (1,), e3, n_ ** 2, "matvec-eq"))
+            add(common, pair_case(t, F_EINSUM, (0,), (0, 1), e3, n_ ** 2, "vecmat-eq"))
     # single-tensor patterns
     maxr = 4
     singles = [s for r in range(1, maxr + 1) for s in structures(r)]
